@@ -126,6 +126,11 @@ def streamOp : List String → Option String
     pure (showExcept (fun o => match o with
       | none => "none"
       | some b => b.hex) (streamDataEncode u ss))
+  | ["encf", user, samples] => do
+    let u ← userArg user; let ss ← samplesArg samples
+    pure (showExcept (fun o => match o with
+      | none => "none"
+      | some b => b.hex) (frameStreamEncode u ss))
   | _ => none
 
 end Nxs.Driver
